@@ -74,11 +74,16 @@ def checkWith (sc : Driver.Script)
     i := i + 1
     if ln.kind == '!' then
       match ln.toks with
-      | "new" :: n :: _ =>
+      | "new" :: n :: rest =>
         s := some { stream := (List.range (n.toNat?.getD 0)).map streamByte }; pending := none
+        -- (the scripted transport is the default and earns no tag: a script counts as non-trivial by what its operations reached)
+        if rest.head? != some "adapter" then
+          res := { res with tags := Driver.addTag res.tags ("real-transport-" ++ (rest.head?.getD "?")) }
       | toks =>
         match parseOp toks with
-        | some op => pending := some op; res := { res with ops := res.ops + 1 }
+        | some op =>
+          pending := some op; res := { res with ops := res.ops + 1 }
+          if toks.getLast? == some "d" then res := { res with tags := Driver.addTag res.tags "issued-at-dispatch-limit" }
         | none => res := { res with envBad := res.envBad <|> some (i, s!"unparsable operation: {ln.raw}") }
     else if ln.kind == '<' && ln.toks == ["completed-inline-at-the-dispatch-limit"] then
       res := { res with specFail := res.specFail <|> some (i, "key=xfer.completed-inline-at-the-dispatch-limit the operation was issued with IO.Dispatched at MaxCallbackDispatch and its callback ran before the call returned") }
